@@ -49,6 +49,25 @@ impl Diagnostic {
         lookup: &line_col::LineColLookup,
         e: ParseError,
     ) -> Option<Diagnostic> {
+        #[cfg(feature = "verif-hooks")]
+        match &e {
+            lalrpop_util::ParseError::InvalidToken { .. } => {
+                crate::verif_hooks::record_expected("InvalidToken", &[])
+            }
+            lalrpop_util::ParseError::UnrecognizedEOF { expected, .. } => {
+                crate::verif_hooks::record_expected("UnrecognizedEOF", expected)
+            }
+            lalrpop_util::ParseError::UnrecognizedToken { expected, .. } => {
+                crate::verif_hooks::record_expected("UnrecognizedToken", expected)
+            }
+            lalrpop_util::ParseError::ExtraToken { .. } => {
+                crate::verif_hooks::record_expected("ExtraToken", &[])
+            }
+            lalrpop_util::ParseError::User { .. } => {
+                crate::verif_hooks::record_expected("User", &[])
+            }
+        }
+
         match e {
             lalrpop_util::ParseError::InvalidToken { location } => Some(Diagnostic {
                 kind: DiagnosticKind::Error,
